@@ -30,18 +30,23 @@ func (r *c09) Exec(op []string) string {
 	if op[0] == "reset" {
 		return "-"
 	}
-	limit, procs := atoi(op[1]), atoi(op[2])
+	tight := strings.HasSuffix(op[2], "t") // tight mode: no artificial yields anywhere (short critical sections, spinning waiters)
+	limit, procs := atoi(op[1]), atoi(strings.TrimSuffix(op[2], "t"))
 	old := runtime.GOMAXPROCS(procs)
 	defer runtime.GOMAXPROCS(old)
 	var evlog []string // appended only inside the callback, i.e. under the cache's own mutex
 	// The size function and the callback run inside the cache's critical section; letting them yield
 	// stretches that section so that other goroutines really arrive while a call is in progress.
 	c := cache.New(int64(limit), cache.LRU[int, int]().WithSize(func(int) int64 {
-		runtime.Gosched()
+		if !tight {
+			runtime.Gosched()
+		}
 		return 1
 	}).OnEvict(func(k, v int) {
 		evlog = append(evlog, fmt.Sprintf("%d:%d", k, v))
-		runtime.Gosched()
+		if !tight {
+			runtime.Gosched()
+		}
 	}))
 	progs := map[int][]string{}
 	var tids []int
@@ -68,32 +73,27 @@ func (r *c09) Exec(op []string) string {
 			}
 			for j, o := range progs[tid] {
 				// de-synchronise the goroutines a little so that calls really overlap
-				for y := (tid*7 + j*3 + len(o)) % 4; y > 0; y-- {
-					runtime.Gosched()
+				if !tight {
+					for y := (tid*7 + j*3 + len(o)) % 4; y > 0; y-- {
+						runtime.Gosched()
+					}
 				}
 				f := strings.Split(o, ":")
 				e := c09ev{tid: tid, op: o}
 				e.inv = clock.Add(1)
-				switch f[0] {
-				case "put":
-					e.result = fmtBool(c.Put(atoi(f[1]), atoi(f[2])))
-				case "get":
-					v, ok := c.Get(atoi(f[1]))
-					e.result = fmtPop(v, ok)
-				case "has":
-					e.result = fmtBool(c.Has(atoi(f[1])))
-				case "remove":
-					e.result = fmtBool(c.Remove(atoi(f[1])))
-				case "len":
-					e.result = fmt.Sprint(c.Len())
-				case "size":
-					e.result = fmt.Sprint(c.Size())
-				case "clear":
-					c.Clear()
-					e.result = "-"
-				}
+				func() {
+					defer func() {
+						if x := recover(); x != nil { // a panic inside a call is an observation, not a harness crash
+							e.result = "panic:" + panicClass(x)
+						}
+					}()
+					c09call(c, f, &e)
+				}()
 				e.res = clock.Add(1)
 				results[i] = append(results[i], e)
+				if strings.HasPrefix(e.result, "panic:") {
+					return
+				}
 			}
 		}(i, tid)
 	}
@@ -118,6 +118,27 @@ func (r *c09) Exec(op []string) string {
 	return fmt.Sprintf("hist=%s;ev=[%s];len=%d;size=%d", strings.Join(hs, " "), strings.Join(evlog, " "), c.Len(), c.Size())
 }
 
+func c09call(c *cache.Cache[int, int], f []string, e *c09ev) {
+	switch f[0] {
+	case "put":
+		e.result = fmtBool(c.Put(atoi(f[1]), atoi(f[2])))
+	case "get":
+		v, ok := c.Get(atoi(f[1]))
+		e.result = fmtPop(v, ok)
+	case "has":
+		e.result = fmtBool(c.Has(atoi(f[1])))
+	case "remove":
+		e.result = fmtBool(c.Remove(atoi(f[1])))
+	case "len":
+		e.result = fmt.Sprint(c.Len())
+	case "size":
+		e.result = fmt.Sprint(c.Size())
+	case "clear":
+		c.Clear()
+		e.result = "-"
+	}
+}
+
 func genC09(g *G) {
 	cases := g.Scale(1500, 30000)
 	for c := 0; c < cases; c++ {
@@ -127,6 +148,25 @@ func genC09(g *G) {
 		procs := []int{1, 2, 4, 8, 16}[g.Intn(5)]
 		var toks []string
 		val := 1
+		if g.Chance(1, 4) {
+			// hot-key pattern: one writer keeps replacing the same key while the others only observe it;
+			// any window in which the key is transiently absent (or counted twice) is not linearizable
+			hot := g.Intn(keys)
+			for i := 0; i < 8; i++ {
+				toks = append(toks, fmt.Sprintf("0:put:%d:%d", hot, val))
+				val++
+				for j := 0; j < 5; j++ { // observers run long tight loops so that they are contending when a window opens
+					for t := 1; t < nthreads; t++ {
+						toks = append(toks, fmt.Sprintf("%d:%s", t, g.Pick(fmt.Sprintf("has:%d", hot), fmt.Sprintf("has:%d", hot), fmt.Sprintf("get:%d", hot), "len", "size")))
+					}
+				}
+			}
+			if procs == 1 {
+				procs = 4
+			}
+			g.Case([]string{"reset", fmt.Sprintf("run %d %dt %s", limit, procs, strings.Join(toks, " "))})
+			continue
+		}
 		// a sequential prefix by thread 0 so that the cache is warm, then everybody
 		perThread := make([]int, nthreads)
 		total := nthreads * (2 + g.Intn(4))
